@@ -197,6 +197,16 @@ pub fn run_race(ctx: &mut Ctx, bytes: &[u8], force_shifting: bool) -> Result<boo
         return Err(Failure::new("no answer to initialize", case).sig("kind", "harness"));
     }
     lsp.did_open(&uri, &text);
+    // a second open document, large and with diagnostics of its own; some edits of the race go to it
+    let two_docs = c.chance(110);
+    let mut text_b = format!("{}\nfn other_broken( {{\n", version_text(7, 150, false).replace("helper_v", "other_v").replace("main", "other_main").replace("fill", "ofill"));
+    let path_b = wd.write("src/e.gleam", &text_b);
+    let uri_b = uri_of(&path_b);
+    let mut version_b = 1usize;
+    if two_docs {
+        lsp.did_open(&uri_b, &text_b);
+        ctx.class("race with two open documents");
+    }
     // make sure the project is loaded before the race starts
     let _ = lsp.syntax_tree(&uri, Duration::from_secs(20));
     // build the message stream
@@ -228,6 +238,14 @@ pub fn run_race(ctx: &mut Ctx, bytes: &[u8], force_shifting: bool) -> Result<boo
         // a burst of edits
         let nedit = 1 + c.below(8);
         for _ in 0..nedit {
+            if two_docs && c.chance(90) {
+                // an edit of the other document (full replacement; with or without its syntax error)
+                version_b += 1;
+                let keep_error = c.chance(150);
+                text_b = format!("{}{}", version_text(version_b, 150, false).replace("helper_v", "other_v").replace("main", "other_main").replace("fill", "ofill"), if keep_error { "\nfn other_broken( {\n" } else { "" });
+                stream.extend(Lsp::frame(&json!({"jsonrpc": "2.0", "method": "textDocument/didChange", "params": {"textDocument": {"uri": uri_b, "version": version_b + 1}, "contentChanges": [{"text": text_b}]}})));
+                msg_bounds.push(stream.len());
+            }
             version += 1;
             let change = match c.weighted(&[4, if shifting { 3 } else { 0 }, 2]) {
                 0 => {
@@ -410,10 +428,15 @@ pub fn run_race(ctx: &mut Ctx, bytes: &[u8], force_shifting: bool) -> Result<boo
         }
     }
     // (4) the last published diagnostics are those of the final text
+    let mut to_check: Vec<(String, String)> = vec![(uri.clone(), final_server.clone())];
+    if two_docs {
+        to_check.push((uri_b.clone(), text_b.chars().filter(|ch| *ch != '\r').collect()));
+    }
+    for (duri, dtext) in to_check {
     let want_diags: Vec<String> = {
-        let ws = single_ws(&final_server);
+        let ws = single_ws(&dtext);
         let host = build_host(&ws);
-        let doc = ClientDoc::new(&final_server);
+        let doc = ClientDoc::new(&dtext);
         let mut v: Vec<String> = host.snapshot().diagnostics(FileId(0)).unwrap_or_default().iter().take(128).map(|d| lsp_range(&doc, d.range.start().into(), d.range.end().into()).to_string()).collect();
         v.sort();
         v
@@ -427,7 +450,7 @@ pub fn run_race(ctx: &mut Ctx, bytes: &[u8], force_shifting: bool) -> Result<boo
             .notifications
             .iter()
             .rev()
-            .find(|n| n["method"] == "textDocument/publishDiagnostics" && n["params"]["uri"].as_str().map(|u| u == uri).unwrap_or(false))
+            .find(|n| n["method"] == "textDocument/publishDiagnostics" && n["params"]["uri"].as_str().map(|u| u == duri).unwrap_or(false))
             .map(|n| {
                 let mut v: Vec<String> = n["params"]["diagnostics"].as_array().map(|a| a.iter().map(|d| d["range"].to_string()).collect()).unwrap_or_default();
                 v.sort();
@@ -441,10 +464,11 @@ pub fn run_race(ctx: &mut Ctx, bytes: &[u8], force_shifting: bool) -> Result<boo
     if !ok {
         lsp.kill();
         return Err(Failure::new(
-            format!("30 s after the client went quiet the last published diagnostics {:?} are not those of the final text {:?}. {}", last.map(|l| l.len()), want_diags.len(), desc),
+            format!("30 s after the client went quiet the last diagnostics published for {} {:?} are not those of its final text {:?}. {}", duri.rsplit('/').next().unwrap_or(""), last.map(|l| l.len()), want_diags.len(), desc),
             case,
         )
         .sig("kind", "stale-diagnostics"));
+    }
     }
     let _ = lsp.shutdown();
     Ok(in_flight_at_edit)
